@@ -25,6 +25,9 @@ CLAIMED = {
  "C16": ("reaching definitions and post-dominance (with exceptional edges) on a statement CFG; wrapper-chain order; positional flow of the bounds pair",
          "Static: what maximise returns is, on every path, the best point recorded by the tracker (get_best() runs in a finally, tuple positions agree), the tracker is the innermost wrapper and sees the start point and every optimiser evaluation, it updates only on improvement with a copy; bounds travel in (lower, upper) order from get_bounds_vectors to the in-bounds test and the bounds wrapper sits outside the tracker; the controller writes the calculator state back in a finally. Exactness of initialise_from_nested and the optimisers' internals are not decided.",
          "Trusts python ast, CFG/reaching definitions, determinism of the objective."),
+ "C07": ("package-wide who-may-call over typed receivers, post-dominance of the notification on a statement CFG, finally-protection of context-manager generators, def-use sets of the undo bookkeeping",
+         "Static: definition-level mutators are called only by their owner, which notifies with the changed definition on every normal path; the propagation sweep marks clients, clears the dirty set only after the sweep and never while suspended; every state-setting context manager restores in a finally; the calculator's undo bookkeeping is restored on the interruption path. Equality of the incremental value with a fresh calculation over all histories is not decided.",
+         "Trusts python ast, CFG, the receiver typing by origin (loop variables over self.defns are definitions; names pc/lf/self are controllers)."),
 }
 
 NOT_APPLICABLE = {
